@@ -574,3 +574,207 @@ func ruleAmbiguitySkipIsTextLength(c *Ctx, rule string) {
 		c.R.Add(rule, c.fk(search), "skip-length/from-the-syntax-package", c.P.Pos(search.Pos()), false, "the ambiguity search no longer takes the number of bytes to skip from the syntax package")
 	}
 }
+
+// ruleOnlyTheWholePatternIsJudged — C05.R13: Handle and CheckSyntax agree on what a well-formed pattern is because
+// both ask the parser about the whole pattern. A search that walks the tree hands the parser *remainders* of the
+// pattern (the text after the nodes it has descended through); a remainder cut inside one of the pattern's own
+// parameters (a literal node "{a" under the pattern "/{a{}") does not parse although the pattern does. The parser's
+// verdict on a remainder is therefore never returned: in every function of the tree package that is called with a
+// slice of its own string parameter (a recursive walk over remainders), the error of Interceptors.Split on that
+// parameter does not reach a return.
+func ruleOnlyTheWholePatternIsJudged(c *Ctx, rule string) {
+	c.R.Rule(c.R.Property+"."+rule, 1, "the parser's verdict on a part of a pattern is never reported as the verdict on the pattern")
+	split := c.P.MustFunc("syntax.(*Interceptors).Split")
+	n := 0
+	for _, f := range c.libFuncs() {
+		if !strings.HasPrefix(an.FuncKey(f), c.A.TreePkg.Name()+".") {
+			continue
+		}
+		// string parameters that receive a remainder (a slice of the same parameter) at a recursive call
+		remainder := map[*ssa.Parameter]bool{}
+		an.AllInstrs(f, func(in ssa.Instruction) {
+			call := an.CallOf(in)
+			if call == nil {
+				return
+			}
+			if g := an.StaticCallee(call); g == nil || an.Origin(g) != an.Origin(f) {
+				return
+			}
+			for i, a := range an.CallArgs(call) {
+				if sl, ok := a.(*ssa.Slice); ok && i < len(f.Params) {
+					if p, isP := sl.X.(*ssa.Parameter); isP && p == f.Params[i] {
+						remainder[p] = true
+					}
+				}
+			}
+		})
+		if len(remainder) == 0 {
+			continue
+		}
+		an.AllInstrs(f, func(in ssa.Instruction) {
+			call, ok := in.(*ssa.Call)
+			if !ok {
+				return
+			}
+			g := an.StaticCallee(&call.Call)
+			if g == nil || an.Origin(g) != an.Origin(split) || len(call.Call.Args) != 2 {
+				return
+			}
+			p, isP := call.Call.Args[1].(*ssa.Parameter)
+			if !isP || !remainder[p] {
+				return
+			}
+			n++
+			returned := false
+			var follow func(v ssa.Value, depth int)
+			follow = func(v ssa.Value, depth int) {
+				if depth > 4 || v.Referrers() == nil {
+					return
+				}
+				for _, r := range *v.Referrers() {
+					switch x := r.(type) {
+					case *ssa.Return:
+						returned = true
+					case *ssa.Phi:
+						follow(x, depth+1)
+					case *ssa.MakeInterface:
+						follow(x, depth+1)
+					case *ssa.Store:
+						returned = true // a named result or a variable read later
+					}
+				}
+			}
+			for _, r := range *call.Referrers() {
+				if ex, isEx := r.(*ssa.Extract); isEx && ex.Index == 1 {
+					follow(ex, 0)
+				}
+			}
+			c.R.Add(rule, c.fk(f), "call:Interceptors.Split("+p.Name()+"=remainder)/error-not-returned", c.pos(in), !returned, ifelse(!returned, "a remainder that does not parse is skipped; the whole pattern is judged by Tree.Add", "the walk hands the parser the remainder of the pattern after the nodes it descended through and returns the parser's error: a literal node that ends inside one of the pattern's own parameters (\"{a\" under \"/{a{}\") leaves a remainder (\"{}\") that does not parse, and Handle rejects with a syntax error a pattern CheckSyntax accepts"))
+		})
+	}
+	if n == 0 {
+		c.R.Add(rule, "pkg:tree", "parser-on-remainders/exists", "-", true, "no walk over remainders consults the parser")
+	}
+}
+
+// ruleAnswerFromOneSection — C06.R11: a response is one the router could have produced at one instant when everything
+// it says about the matched node was read in the critical section that found the node. Tree.Handler finds node and
+// handler under the read lock and releases it; what is read from the node afterwards (types.Node.Methods /
+// AllowHeader take the lock again for themselves) belongs to a later instant — after a concurrent Remove the same
+// request is answered 405 with an empty Allow, a combination no instant produces. The obligation: on no path of
+// Router.serveContext is the node's method set read (by library code: the CORS procedure) after the lookup returned.
+// The automatic 405 / OPTIONS handlers of the user's builders read it in the same way, out of reach of this rule.
+func ruleAnswerFromOneSection(c *Ctx, rule string) {
+	c.R.Rule(c.R.Property+"."+rule, 1, "what a response says about the matched node is read in the critical section that found it")
+	serve := c.P.MustFunc("mux.(*Router).serveContext")
+	n := 0
+	an.AllInstrs(serve, func(in ssa.Instruction) {
+		if _, ok := calleeIs(in, c.A.TreeHandler); !ok {
+			return
+		}
+		n++
+		path := (&an.Query{
+			Deep: deepDefault,
+			Target: func(t ssa.Instruction) bool {
+				call := an.CallOf(t)
+				if call == nil {
+					return false
+				}
+				nm := an.CalleeName(call)
+				return nm == "invoke:types.Node.Methods" || nm == "invoke:types.Node.AllowHeader"
+			},
+		}).Search(an.After(in))
+		o := c.R.Add(rule, c.fk(serve), "after:Tree.Handler/node-method-set-not-read-again", c.pos(in), path == nil, ifelse(path == nil, "after the lookup nothing reads the node's method set under another acquisition", "after Tree.Handler released the tree lock the response is completed from a second read of the node's method set (types.Node.Methods / AllowHeader lock for themselves): a Remove or Handle between the lookup and that read yields a response no single instant produces (405 or a preflight answered with the method list of a later state, an empty Allow after Remove)"))
+		if path != nil {
+			o.Path = c.P.PathString(path)
+		}
+	})
+	if n == 0 {
+		c.R.Add(rule, c.fk(serve), "lookup/exists", c.P.Pos(serve.Pos()), false, "serveContext no longer looks the handler up with Tree.Handler")
+	}
+}
+
+// ruleEntryConditionBelongsToTheGroup — C13.R12 / C07.R11: a Group serves with the first router whose matcher — the one
+// given to *this group's* Add/New for that router — accepts. The pair (matcher, router) is state of the group. When
+// the matcher is kept in the Router object (a field written by Group.Add), adding the same router to a second group
+// overwrites the entry condition the first group dispatches with. Obligation: no function of Group writes a field of
+// a Router that Group.ServeHTTP reads.
+func ruleEntryConditionBelongsToTheGroup(c *Ctx, rule string) {
+	c.R.Rule(c.R.Property+"."+rule, 1, "the entry condition of a router in a group is state of that group, not of the router")
+	routerT := lookupNamed(c.A.MuxPkg, "Router")
+	serve := c.P.MustFunc("mux.(*Group).ServeHTTP")
+	reads := map[string]bool{}
+	an.AllInstrs(serve, func(in ssa.Instruction) {
+		if u, ok := in.(*ssa.UnOp); ok && u.Op == token.MUL {
+			if fa, ok := u.X.(*ssa.FieldAddr); ok && isPtrToNamed(fa.X.Type(), routerT) {
+				reads[an.FieldName(fa.X.Type(), fa.Field)] = true
+			}
+		}
+	})
+	n := 0
+	for _, f := range c.libFuncs() {
+		if !strings.HasPrefix(an.FuncKey(f), "mux.(*Group).") {
+			continue
+		}
+		an.AllInstrs(f, func(in ssa.Instruction) {
+			st, ok := in.(*ssa.Store)
+			if !ok {
+				return
+			}
+			fa, ok := st.Addr.(*ssa.FieldAddr)
+			if !ok || !isPtrToNamed(fa.X.Type(), routerT) {
+				return
+			}
+			fld := an.FieldName(fa.X.Type(), fa.Field)
+			if !reads[fld] {
+				return
+			}
+			if _, fresh := fa.X.(*ssa.Alloc); fresh {
+				return
+			}
+			n++
+			c.R.Add(rule, c.fk(f), "store:Router."+fld+"/read-by-Group.ServeHTTP", c.pos(in), false, "the group keeps what it dispatches with (Router."+fld+") inside the Router object: adding the same router to a second group (or adding it again with another matcher) rewrites the condition under which the first group enters it, although nothing was called on the first group")
+		})
+	}
+	if n == 0 {
+		c.R.Add(rule, "mux.(*Group)", "dispatch-state/kept-in-the-group", "-", true, "no Group method writes a Router field that Group.ServeHTTP reads")
+	}
+}
+
+// ruleRootMappedPathsAreNotPatterns — C03.R15 / C04.R14: the request paths Tree.Handler answers with the root node
+// ("*", and the empty path) never reach the route search, so a route registered under such a pattern is listed by
+// Routes() and counted by OPTIONS * but can never be served. Tree.Add therefore refuses these patterns: somewhere
+// on the way from Tree.Add to the node construction the pattern is compared with each of those constants.
+func ruleRootMappedPathsAreNotPatterns(c *Ctx, rule string) {
+	c.R.Rule(c.R.Property+"."+rule, 1, "a pattern that is a request path the tree answers with the root node is refused")
+	var consts []string
+	an.AllInstrs(c.A.TreeHandler, func(in ssa.Instruction) {
+		bo, ok := in.(*ssa.BinOp)
+		if !ok || bo.Op != token.EQL {
+			return
+		}
+		if k, isS := strConst(bo.Y); isS && k != "" && strings.HasSuffix(an.AP(bo.X), ".Path") {
+			consts = append(consts, k)
+		}
+	})
+	sort.Strings(consts)
+	reach := an.NewGraph(c.P).Reach([]*ssa.Function{c.A.TreeAdd}, func(_ *ssa.Function, e an.Edge) bool { return e.Kind == "static" })
+	for _, k := range consts {
+		found := false
+		for f := range reach {
+			an.AllInstrs(f, func(in ssa.Instruction) {
+				if bo, ok := in.(*ssa.BinOp); ok && (bo.Op == token.EQL || bo.Op == token.NEQ) {
+					for _, pair := range [][2]ssa.Value{{bo.X, bo.Y}, {bo.Y, bo.X}} {
+						if s, isS := strConst(pair[1]); isS && s == k && isStringType(pair[0].Type()) {
+							found = true
+						}
+					}
+				}
+			})
+		}
+		c.R.Add(rule, c.fk(c.A.TreeAdd), "pattern="+strconv.Quote(k)+"/refused", c.P.Pos(c.A.TreeAdd.Pos()), found, ifelse(found, "the pattern is compared with this constant on the way to registration", "Tree.Handler answers the request path "+strconv.Quote(k)+" with the root node without searching the routes, yet Tree.Add accepts "+strconv.Quote(k)+" as a pattern: the route is listed by Routes(), adds its methods to OPTIONS *, and is never served (its request is answered by the root's OPTIONS / 405)"))
+	}
+	if len(consts) == 0 {
+		c.R.Add(rule, c.fk(c.A.TreeHandler), "root-mapped-paths/none", c.P.Pos(c.A.TreeHandler.Pos()), true, "no request path is answered with the root node without a search")
+	}
+}
